@@ -244,7 +244,7 @@ pub fn run(ctx: &Ctx) -> Report {
     );
     sec.extra.insert("measured_row_capacity".into(), serde_json::json!(rc));
     sec.extra.insert("measured_block_capacity".into(), serde_json::json!(bc));
-    let n = ctx.cases(120_000, 3_000_000);
+    let n = ctx.cases(200_000, 4_000_000);
     run_generated(&mut sec, ctx.seed, n, ctx.workers, || strategy(wide_menu(), 6), check, sig);
     rep.sections.push(sec);
     if ctx.tier == Tier::Thorough {
